@@ -166,7 +166,7 @@ func joinPath(a, b string) string {
 	return a + "/" + b
 }
 
-func genWorkload(t *simsync.Tape, tier string) *workload {
+func genWorkload(t *simsync.Tape, tier string, naive bool) *workload {
 	wl := &workload{}
 	wl.instance = pick(t, []string{"", "main", "a/b"})
 	wl.doNotCache = t.Bool(1, 4)
@@ -183,7 +183,7 @@ func genWorkload(t *simsync.Tape, tier string) *workload {
 	wl.dirFormat = pick(t, []remoteexecution.Command_OutputDirectoryFormat{remoteexecution.Command_TREE_ONLY, remoteexecution.Command_TREE_AND_DIRECTORY, remoteexecution.Command_DIRECTORY_ONLY})
 	wl.forceTrees = t.Bool(1, 5)
 	wl.inputFile = -1
-	if t.Bool(1, 3) {
+	if !naive && t.Bool(1, 3) {
 		wl.inputFile = 1 + t.Choice(len(contents)-1)
 	}
 	// Declared outputs: 0-6, duplicates allowed.
@@ -250,6 +250,7 @@ const (
 	planNone = iota
 	planSingle
 	planRandom
+	planLate // native build directory: fault-free storage, late writes to outputs
 )
 
 type plan struct {
@@ -263,6 +264,8 @@ func (p plan) String() string {
 	switch p.mode {
 	case planSingle:
 		return fmt.Sprintf("single-fault call#%d %s", p.pos, faultNames[p.kind])
+	case planLate:
+		return "late-writes-by-a-process-left-behind"
 	case planRandom:
 		return fmt.Sprintf("random-faults rate=%d/10", p.rate)
 	}
@@ -276,11 +279,24 @@ type world struct {
 	wl  *workload
 	cur *execution
 	n   int
+	// naive: executions run on a native build directory.
+	naive bool
 }
 
 func (w *world) run() {
 	k := w.k
-	w.wl = genWorkload(w.t, w.r.Tier)
+	// Configuration of this run: the fault enumeration on the virtual
+	// build directory, late writes on a native build directory, or a
+	// BuildClient thread that chains and pre-empts actions.
+	switch w.t.Weighted([]int{2, 1, 1}) {
+	case 1:
+		w.runNaive()
+		return
+	case 2:
+		runBuildClient(w.r)
+		return
+	}
+	w.wl = genWorkload(w.t, w.r.Tier, false)
 	w.r.Logf("workload: %s", w.wl)
 	k.Note("workload: " + w.wl.String())
 	k.AddSource(func() []simsync.Event {
@@ -336,6 +352,48 @@ func (w *world) run() {
 	// storage calls of which at least one stored a blob through the batching
 	// layer.
 	w.r.NonTrivial = len(calls) >= 3 && puts >= 1
+}
+
+// runNaive: the executor stack on a native build directory. After a plain
+// execution, several executions in which a process the action left behind
+// overwrites (in place) or appends to output files while they are uploaded.
+func (w *world) runNaive() {
+	k := w.k
+	w.naive = true
+	w.wl = genWorkload(w.t, w.r.Tier, true)
+	w.wl.batchSize = pick(w.t, []int{1, 2, 3, 100})
+	if w.wl.outcome == outcomeTimeout {
+		w.wl.outcome = outcomeOK
+	}
+	w.r.Logf("native build directory; workload: %s", w.wl)
+	k.Note("native workload: " + w.wl.String())
+	k.AddSource(func() []simsync.Event {
+		if w.cur == nil {
+			return nil
+		}
+		return w.cur.events()
+	})
+	w.execute(plan{mode: planNone})
+	if k.Failed() {
+		return
+	}
+	n := 3 + w.t.Choice(4)
+	late, window := 0, 0
+	for i := 0; i < n; i++ {
+		x := w.execute(plan{mode: planLate})
+		if k.Failed() {
+			return
+		}
+		late += x.lateWrites
+		window += x.lateInWindow
+	}
+	w.r.Count("native_executions", n+1)
+	w.r.Count("native_late_writes", late)
+	w.r.Count("native_in_place_overwrites_between_enqueue_and_flush", window)
+	w.r.State(fmt.Sprintf("native outcome=%s batch=%d late=%d", outcomeNames[w.wl.outcome], w.wl.batchSize, late))
+	// Non-triviality: at least one output was overwritten in place while
+	// a write sat in the batching layer.
+	w.r.NonTrivial = window >= 1
 }
 
 func (w *world) execute(p plan) *execution {
